@@ -34,7 +34,7 @@ type scen struct {
 	w  *world.World
 	B  []*world.Actor // blobbers b0..b3
 	V  []*world.Actor // validators v0,v1
-	As []*world.Actor // free-storage assigners a0,a1 (sign markers only)
+	As []*world.Actor // free-storage assigners a0,a1,a2 (sign markers only)
 	X  *world.Actor   // a key nobody registered (forged signatures)
 	O  *world.Actor   // owner of the storage and miner contracts ("scowner")
 
@@ -45,6 +45,7 @@ type scen struct {
 	views      []*sview          // small cache of decoded states
 
 	freeMarkers map[string]string // free_allocation_request action name -> "<assigner id>:<nonce>"
+	rootRedeemed func(rootName string) map[string]bool // markers redeemed by a root script ("rootN")
 	paths       map[string]*pinfo // per explored path: what the path itself shows (see track)
 }
 
@@ -78,7 +79,7 @@ func newScen(readPoolFraction float64) *scen {
 		s.V = append(s.V, a)
 		extra[a.ID] = 1e11
 	}
-	for i := 0; i < 2; i++ {
+	for i := 0; i < 3; i++ {
 		s.As = append(s.As, world.DetKey(fmt.Sprintf("a%d", i)))
 	}
 	s.X = world.DetKey("x-unregistered")
@@ -621,6 +622,12 @@ func (s *scen) track(x *chainsim.Ctx) {
 	}
 	bal := uint64(x.Bal(s.O.ID))
 	info := &pinfo{ownerBal: bal, redeemed: map[string]bool{}}
+	if len(path) == 1 && s.rootRedeemed != nil {
+		// a root state: the markers its (scripted, all-successful) prefix redeemed
+		for k := range s.rootRedeemed(path[0]) {
+			info.redeemed[k] = true
+		}
+	}
 	if len(path) > 1 {
 		parent, ok := s.paths[strings.Join(path[:len(path)-1], "\x00")]
 		if !ok {
